@@ -199,3 +199,33 @@ Definition sm_init (inputs : list (list byte)) : sm :=
   | [] => {| s_inp := []; s_rest := []; s_sc := 1; s_stack := []; s_bol := true; s_line := 1; s_more := []; s_done := [] |}
   | i :: rest => {| s_inp := i; s_rest := rest; s_sc := 1; s_stack := []; s_bol := true; s_line := 1; s_more := []; s_done := [] |}
   end.
+
+(** ** several scanning sessions: after yylex has returned 0 at the end of the
+    input, the caller points yyin at a new source (or calls yyrestart) and calls
+    yylex again: scanning continues in the unchanged start condition, at the
+    beginning of a line. *)
+Fixpoint sm_run_st (fuel : nat) (sp : sprog) (st : sm) : list event * sm :=
+  match fuel with
+  | O => ([], st)
+  | S f => let '(st', ev, go) := sm_step sp st in
+           if go then let (ev', st'') := sm_run_st f sp st' in (ev ++ ev', st'') else (ev, st')
+  end.
+
+Definition reopen (st : sm) (src : list (list byte)) : sm :=
+  match src with
+  | [] => {| s_inp := []; s_rest := []; s_sc := s_sc st; s_stack := s_stack st; s_bol := true;
+             s_line := s_line st; s_more := []; s_done := s_done st |}
+  | i :: rest => {| s_inp := i; s_rest := rest; s_sc := s_sc st; s_stack := s_stack st; s_bol := true;
+                    s_line := s_line st; s_more := []; s_done := s_done st |}
+  end.
+
+Fixpoint sm_sessions (fuel : nat) (sp : sprog) (st : sm) (posts : list (list (list byte))) : list event :=
+  let (ev, st') := sm_run_st fuel sp st in
+  match posts with
+  | [] => ev
+  | p :: ps =>
+      match s_inp st' ++ concat (s_rest st') with
+      | [] => ev ++ sm_sessions fuel sp (reopen st' p) ps
+      | _ => ev          (* the caller only continues after the input was exhausted *)
+      end
+  end.
